@@ -289,6 +289,66 @@ func runProc(svc string, k int, mode string, input []byte) bool {
 	return verdict == "ok"
 }
 
+// runProcSeq: several datagrams from ONE source address and port (a client that retransmits, or a short session),
+// then the usual liveness check.  "@procseq <svc> <datagram hex> ..."
+func runProcSeq(svc string, dgrams [][]byte) bool {
+	child := c01Get()
+	s, ok := labSvcByName(svc)
+	if !ok || s.proto != "udp" {
+		return true
+	}
+	var hs []string
+	for _, d := range dgrams {
+		hs = append(hs, hx(d))
+	}
+	line := fmt.Sprintf("@procseq %s %s", svc, strings.Join(hs, " "))
+	n := atomic.AddUint32(&udpSrc, 1)
+	src := &net.UDPAddr{IP: net.IPv4(127, byte(1+n>>16%250), byte(n>>8), byte(1+n%250))}
+	dst, _ := net.ResolveUDPAddr("udp", fmt.Sprintf("127.0.0.1:%d", c01PortBase+s.port))
+	if conn, err := net.DialUDP("udp", src, dst); err == nil {
+		buf := make([]byte, 65536)
+		for _, d := range dgrams {
+			conn.Write(d)
+			conn.SetReadDeadline(time.Now().Add(15 * time.Millisecond))
+			conn.Read(buf)
+		}
+		conn.Close()
+	}
+	time.Sleep(3 * time.Millisecond)
+	verdict, out := "ok", "alive"
+	if !child.alive() || !child.probe() {
+		time.Sleep(200 * time.Millisecond)
+		if !child.alive() {
+			out = "died:" + child.banner()
+			verdict = fmt.Sprintf("viol:process-terminated:%s: %d datagrams from one source address and port ended the process: %s", svc, len(dgrams), child.banner())
+		} else if !child.probe() {
+			out = "probe-unserved"
+			verdict = fmt.Sprintf("viol:new-connections-not-served:%s: after %d datagrams from one source a fresh connection to the echo port is not served", svc, len(dgrams))
+			child.stop()
+		}
+	}
+	emit(line, out, verdict, true)
+	return verdict == "ok"
+}
+
+// runProcLater: the process is still alive and serving `wait` after the datagram sessions above (timers armed by them
+// have fired by then).  "@proclater <seconds>"
+func runProcLater(since time.Time, wait time.Duration) {
+	child := c01Get()
+	if d := wait - time.Since(since); d > 0 {
+		time.Sleep(d)
+	}
+	verdict, out := "ok", "alive"
+	if !child.alive() {
+		out = "died:" + child.banner()
+		verdict = fmt.Sprintf("viol:process-terminated:the process ended without further input within %s of the datagram sessions: %s", wait, child.banner())
+	} else if !child.probe() {
+		out = "probe-unserved"
+		verdict = "viol:new-connections-not-served:a fresh connection to the echo port is not served some seconds after the datagram sessions"
+	}
+	emit(fmt.Sprintf("@proclater %d", int(wait.Seconds())), out, verdict, true)
+}
+
 func labSvcByName(n string) (labSvc, bool) {
 	for _, s := range labServices {
 		if s.name == n {
@@ -526,6 +586,16 @@ func init() {
 			var k int
 			fmt.Sscan(f[2], &k)
 			runProc(f[1], k, f[3], unhx(f[4]))
+		} else if len(f) >= 3 && f[0] == "@procseq" {
+			var ds [][]byte
+			for _, h := range f[2:] {
+				ds = append(ds, unhx(h))
+			}
+			runProcSeq(f[1], ds)
+		} else if len(f) == 2 && f[0] == "@proclater" {
+			var sec int
+			fmt.Sscan(f[1], &sec)
+			runProcLater(time.Now(), time.Duration(sec)*time.Second)
 		} else if len(f) == 3 && f[0] == "@heap" {
 			runHeap(f[1], unhx(f[2]))
 		} else if len(f) >= 2 && f[0] == "@ssh" {
@@ -548,6 +618,32 @@ func genC01(tier string, seed uint64) {
 		}
 	}()
 	c01Get()
+	// datagram sessions first: the same request two and three times from one source address and port (retransmission),
+	// and for tftp whole transfers; whatever they arm (timers, per-source state) has its effect while the rest runs and
+	// is looked at again at the end
+	for _, s := range labServices {
+		if s.proto != "udp" {
+			continue
+		}
+		for _, in := range append(c09Inputs(s.name, r), c01Inputs(s.name, r)...) {
+			if len(in) == 0 {
+				continue
+			}
+			runProcSeq(s.name, [][]byte{in, in})
+			runProcSeq(s.name, [][]byte{in, in, in[:len(in)/2+1], in})
+		}
+	}
+	{
+		wrq := func(name string) []byte { return append(append([]byte{0, 2}, name...), append([]byte{0}, "octet\x00"...)...) }
+		data := func(block int, n int) []byte { return append([]byte{0, 3, byte(block >> 8), byte(block)}, bytes.Repeat([]byte{'d'}, n)...) }
+		runProcSeq("tftp", [][]byte{wrq("a"), wrq("a"), data(1, 10)})
+		runProcSeq("tftp", [][]byte{wrq("b"), data(1, 512), wrq("b"), data(1, 512), data(2, 3)})
+		runProcSeq("tftp", [][]byte{wrq("c"), wrq("d")})
+		runProcSeq("tftp", [][]byte{wrq("e"), data(1, 512), data(2, 512), data(2, 512), data(3, 0), data(4, 1)})
+		runProcSeq("tftp", [][]byte{data(1, 5), {0, 4, 0, 1}, {0, 1, 'f', 0, 'o', 'c', 't', 'e', 't', 0}, {0, 1, 'f', 0, 'o', 'c', 't', 'e', 't', 0}, {0, 4, 0, 1}})
+	}
+	seqDone := time.Now()
+	defer runProcLater(seqDone, 25*time.Second)
 	for _, s := range labServices {
 		ins := c09Inputs(s.name, r)
 		ins = append(ins, c01Inputs(s.name, r)...)
@@ -659,6 +755,7 @@ func genC01(tier string, seed uint64) {
 
 // c01Inputs: the legal-but-unusual sequences named by the property, and relatives
 func c01Inputs(svc string, r *Rng) [][]byte {
+	svc = strings.TrimSuffix(svc, "-tcp") // the stream twin of a datagram service gets the same inputs
 	var ins [][]byte
 	switch svc {
 	case "ftp":
